@@ -50,8 +50,9 @@ def transpose {α} (a : DimArray α) (ks : Option (List DimKey)) : Except Err (D
 
 def swapaxes {α} (a : DimArray α) (k1 k2 : DimKey) : Except Err (DimArray α) := do
   let ps ← axesPositions a [k1, k2]
-  let p1 := ps.getD 0 0
-  let p2 := ps.getD 1 0
+  let norm (p : Int) : Int := if p < 0 then p + a.ndim else p     -- negative positions count from the end
+  let p1 := norm (ps.getD 0 0)
+  let p2 := norm (ps.getD 1 0)
   let perm : List Int := (List.range a.ndim).map fun (i : Nat) =>
     if (i : Int) == p1 then p2 else if (i : Int) == p2 then p1 else (i : Int)
   let p ← normPerm a.ndim perm
@@ -187,7 +188,7 @@ def broadcast {α} (a : DimArray α) (target : List Axis) : Except Err (DimArray
   let o ← reshape a (target.map (·.name))
   target.reverse.foldlM (fun (o : DimArray α) t =>
     match o.axes.find? (·.name == t.name) with
-    | some ax => if ax.size == 1 && t.size != 1 then repeatAxis o t (.name t.name) else pure o
+    | some ax => if ax.size == 1 && (t.size != 1 || !a.dims.contains t.name) then repeatAxis o t (.name t.name) else pure o
     | none => .error .value) o
 
 /-- `broadcast_arrays(*arrays)` -/
